@@ -77,3 +77,49 @@ func VerifC18Paths() {
 	zz.Assert(foundD, "day partition (daily compacted file) of an instant inside the query's time range is pruned away")
 	zz.Reach("end")
 }
+
+var c18Literals = []string{
+	"2024-03-15T23:00:00Z",
+	"2024-03-15T23:00:00-02:00",
+	"2024-03-15T23:30:00+05:30",
+	"2024-03-15T23:00:00.5+01:00",
+	"2024-03-15 23:00:00",
+	"2024-03-15 23:00",
+	"2024-03-15",
+	"2024/03/15 23:00:00",
+	"2024/03/15",
+	"not a time",
+}
+
+// VerifC18Literal: every kind of time literal the extractor accepts (RFC 3339 with Z, with
+// a negative / positive / half-hour offset, with fractions; the zone-less date and
+// date-time spellings) goes through the real parseDateTime. Partition directories are laid
+// out in UTC and GeneratePartitionPaths formats a bound from its own wall clock, so the
+// value handed on must show the UTC wall clock of the instant the literal denotes; then the
+// real GeneratePartitionPaths over [t, t+2h] must contain the UTC hour partition of t.
+func VerifC18Literal() {
+	lit := c18Literals[zz.Choice("literal", len(c18Literals))]
+	t, err := parseDateTime(lit)
+	if err != nil {
+		zz.Reach("rejected")
+		return
+	}
+	ref, rerr := time.Parse(time.RFC3339Nano, lit)
+	if rerr == nil {
+		zz.Assert(t.Equal(ref), "an RFC 3339 literal was parsed to another instant")
+	}
+	zz.Assert(t.Format("2006/01/02/15") == t.UTC().Format("2006/01/02/15"), "a parsed time literal carries a non-UTC wall clock: partition directories would be computed in the literal's zone")
+	p := NewPartitionPruner(zerolog.Nop())
+	paths := p.GeneratePartitionPaths(context.Background(), "/data", "db", "cpu", &TimeRange{Start: t, End: t.Add(2 * time.Hour)})
+	if paths != nil {
+		want := c18HourPath("/data", "db", "cpu", t.UTC(), false)
+		found := false
+		for _, x := range paths {
+			if x == want {
+				found = true
+			}
+		}
+		zz.Assert(found, "the hour partition of the literal's instant (UTC layout) is not among the pruned paths")
+	}
+	zz.Reach("accepted")
+}
